@@ -121,6 +121,9 @@ vf::Result sub_O3(uint16_t w, uint16_t x, uint32_t pc, uint64_t seed) {
     // follow the instruction with a marker instruction (nop = 0x0000) and look at two cycles
     c.cycles = 1;
     icase::IResult r = sut().exec(c);
+    if (r.outcome == 2 && r.what.find("matcher.h") != std::string::npos)
+        return vf::Result::fail("C02:O3:dispatch-assert", "executing word " + vf::hex(w) + " (" + i.form + ") trips the decoder's own consistency assertion: " + r.what +
+                                                              " (the interpreter dispatched a form that does not match the word)");
     if (r.outcome != 0 || r.oob)
         return vf::Result::pass(); // unimplemented / deliberate assert: no length claim to check
     // program fetches of the cycle are the first accesses in the log
